@@ -65,7 +65,21 @@ fn check_state(r: &mut Report, reg: &R, recv: &BTreeMap<Hash, N>, what: &dyn Fn(
         }
     }
     r.case("merkle.validate_op", ok3, what, &|| "validate_op verdict differs from 'all children visible'".into());
-    ok && ok2 && ok3
+    // write(): builds exactly the node it is asked for -- whatever the children are (heads, superseded visible nodes, orphans,
+    // hashes this replica has never seen) and without touching the register
+    let mut ok4 = true;
+    let all: BTreeSet<Hash> = recv.keys().copied().collect();
+    let mut unknown = all.clone(); unknown.insert([0xabu8; 32]);
+    let mut sets: Vec<BTreeSet<Hash>> = vec![BTreeSet::new(), heads.clone(), vis.clone(), orphans.clone(), all, unknown];
+    for n in recv.values() { sets.push(n.children.clone()); }
+    let before = reg.clone();
+    for cs in sets {
+        let n = reg.write(vec![9u8, 9], cs.clone());
+        ok4 &= n.children == cs && n.value == vec![9u8, 9];
+    }
+    ok4 &= *reg == before;
+    r.case("merkle.write_is_the_requested_node", ok4, what, &|| "write(value, children) returned a node with other children / value".into());
+    ok && ok2 && ok3 && ok4
 }
 
 pub fn standin_merkle_hash(r: &mut Report) {
